@@ -15,9 +15,9 @@ use crate::proto::{Ctx, attrs};
 pub fn meta() -> Meta {
     Meta {
         level: "model_checking",
-        rule: "(a) for every kind in {bdd,bcdd,zbdd}, n=3: every source order (6) x every request (all 15 ordered selections of 1..3 distinct variables) with all 256 functions alive; n=4: every source x every total target (576) with a 64-function live set, every partial request from the identity; 1 and 2 workers. After the call: requested pairs in order, Kendall-tau distance to the source minimal among all orders satisfying the request (brute force), var/level maps inverse, every old handle has its old table (interpreter and eval), full audit incl. exact reference counts, canonicity (== route-A rebuild), node_count = model minimum. (b) histories: all sequences of depth <= d over {reorder to each of the 6 orders, and, xor, drop, gc} from each source order, every later result compared with the model and with the same operations on a manager created directly in the final order. state = (order, live tables); transition = one executed step.",
+        rule: "(a) for every kind in {bdd,bcdd,zbdd}, n=3: every source order (6) x every request (all 15 ordered selections of 1..3 distinct variables) with all 256 functions alive; n=4: every source x every total target (576) with a 64-function live set, every partial request from the identity; 1 and 2 workers. After the call: requested pairs in order, Kendall-tau distance to the source minimal among all orders satisfying the request (brute force), var/level maps inverse, every old handle has its old table (interpreter and eval), full audit incl. exact reference counts, canonicity (== route-A rebuild), node_count = model minimum. (a') schedules of the concurrent variant: for sources 0123, 3210, 1302 (2 workers; thorough also 3), 01234 (2 and 3 workers), 31402 (2; thorough also 3), thorough 012345 (3 workers) and the requests reverse / rotate / odd-positions-first, a 4-function live set with nodes on every level: every schedule with <= 2 preemptions (thorough: 3 for 2 workers) of one set_var_order call on a fresh manager; oracle as in (a) without the swap-count minimum, plus no deadlock and no panic. (b) histories: all sequences of depth <= d over {reorder to each of the 6 orders, and, xor, drop, gc} from each source order, every later result compared with the model and with the same operations on a manager created directly in the final order. state = (order, live tables); transition = one executed step.",
         assumptions: vec![
-            "the concurrent bubble sort / parallel level update (normally only taken from 65536 nodes on) is forced through a cfg(oxidd_verif) switch for the `conc4` shards and runs on 4 real rayon workers: exhaustive over (source, target) inputs, free-running over thread schedules (its schedules are not enumerated)".into(),
+            "the concurrent bubble sort / parallel level update (normally only taken from 65536 nodes on) is forced through a cfg(oxidd_verif) switch: in the `conc4` shards it runs on 4 real rayon workers (exhaustive over (source, target) inputs, free-running over thread schedules); in the `sched<r>` shards the worker instances are controlled threads and all schedules with <= 2 preemptions are enumerated (Workers::broadcast forks them through the join hook; the mutex and condition variable of the task queue announce blocking, a wake-up needs a notification as for the real condition variable, so a lost notification shows up as a deadlock)".into(),
             "orders on 5..10 variables are not enumerated".into(),
         ],
         hang_is_violation: true,
@@ -52,6 +52,25 @@ pub fn shards(tier: &str) -> Vec<String> {
         }
         for o in ["01234", "43210", "20413", "31402"] {
             v.push(format!("{k}:sparse5:{o}:t1"));
+        }
+        // the concurrent variant under the cooperative scheduler: all schedules with <= 2 preemptions
+        // (part name = sched<request index>: 0 reverse, 1 rotate, 2 odd positions first)
+        for r in 0..3 {
+            for o in ["0123", "3210", "1302"] {
+                v.push(format!("{k}:sched{r}:{o}:t2"));
+                if tier == "thorough" {
+                    v.push(format!("{k}:sched{r}:{o}:t3"));
+                }
+            }
+            for o in ["01234", "31402"] {
+                v.push(format!("{k}:sched{r}:{o}:t2"));
+                if tier == "thorough" || o == "01234" {
+                    v.push(format!("{k}:sched{r}:{o}:t3"));
+                }
+            }
+            if tier == "thorough" {
+                v.push(format!("{k}:sched{r}:012345:t3"));
+            }
         }
         // the concurrent variant (forced through the oxidd-reorder hook), 4 real workers
         for (i, o) in p4.iter().enumerate() {
@@ -234,9 +253,15 @@ pub fn run(ctx: &mut Ctx) {
     }
 }
 
-fn run_k<K: BoolKind>(ctx: &mut Ctx, part: &str, src: &str, tc: &str) {
+fn run_k<K: BoolKind>(ctx: &mut Ctx, part: &str, src: &str, tc: &str)
+where
+    MRefOf<K>: Send + Sync,
+{
     let src = model::parse_order(src);
-    let tc = ThreadCfg { threads: if tc == "t2" { 2 } else if tc == "t4" { 4 } else { 1 }, split: None };
+    let tc = ThreadCfg { threads: if tc == "t2" { 2 } else if tc == "t3" { 3 } else if tc == "t4" { 4 } else { 1 }, split: None };
+    if let Some(r) = part.strip_prefix("sched") {
+        return sched_reorder::<K>(ctx, &src, r.parse().unwrap(), tc);
+    }
     crate::dd::force_concurrent_reorder(part == "conc4");
     let part = if part == "conc4" { "n4" } else { part };
     match part {
@@ -399,6 +424,106 @@ fn chains<K: BoolKind>(ctx: &mut Ctx, src: &[u32], tc: ThreadCfg) {
                 }
             }
             ctx.sample(|| json!({"kind": K::NAME, "source_order": model::order_str(&src), "actions": [first, 7, 2, 9]}));
+        });
+    }
+}
+
+/// The concurrent bubble sort and the parallel level update of `set_var_order` (forced through the
+/// oxidd-reorder hook) with the worker instances running as controlled threads: every schedule with
+/// at most `bound` preemptions of one reordering, on a fresh manager per schedule.
+fn sched_reorder<K: BoolKind>(ctx: &mut Ctx, src: &[u32], which: usize, tc: ThreadCfg)
+where
+    MRefOf<K>: Send + Sync,
+{
+    use crate::sched;
+    sched::install_hooks();
+    let n = src.len() as u32;
+    let x: Vec<Tab> = (0..n).map(|v| model::var_tab(v, n)).collect();
+    let full = model::full(n);
+    // a small live set with nodes on every level and sharing between the functions
+    let parity = x.iter().fold(0, |a, &b| a ^ b);
+    let pairs = x.chunks(2).fold(0, |a, c| a | c.iter().fold(full, |p, &q| p & q));
+    let tabs: Vec<Tab> = vec![parity, pairs, (x[0] | x[2]) & !x[n as usize - 1] & full, x[1] & x[n as usize - 1]];
+    let mut reqs: Vec<Vec<u32>> = vec![];
+    let mut r = src.to_vec();
+    r.reverse();
+    reqs.push(r);
+    let mut r = src.to_vec();
+    r.rotate_left(1);
+    reqs.push(r);
+    let mut r: Vec<u32> = src.iter().copied().skip(1).step_by(2).collect();
+    r.extend(src.iter().copied().step_by(2));
+    reqs.push(r);
+    let bound = if ctx.thorough() && tc.threads == 2 { 3 } else { 2 };
+    for req in [reqs[which].clone()] {
+        let label = format!("schedules src={} req={} workers={}", model::order_str(src), model::order_str(&req), tc.threads);
+        let src = src.to_vec();
+        let tabs = tabs.clone();
+        ctx.group(&label, |ctx| {
+            let cap = if ctx.thorough() { 400_000 } else { 60_000 };
+            let ctx_cell = std::cell::RefCell::new(ctx);
+            let (count, maxp, capped) = sched::explore(bound, cap, |prefix| {
+                let mut ctx = ctx_cell.borrow_mut();
+                crate::dd::force_concurrent_reorder(false);
+                let (mref, fns) = functions_of::<K>(n, &src, 1024, tc, &tabs);
+                crate::dd::force_concurrent_reorder(true);
+                let (mr, rq) = (&mref, &req);
+                let bodies: Vec<Box<dyn FnOnce() + Send + '_>> = vec![Box::new(move || K::set_order(mr, rq))];
+                let kind = K::NAME;
+                let lab = label.clone();
+                let pfx = prefix.to_vec();
+                let exec = sched::run_reporting_deadlock(prefix, bodies, |d, tr| {
+                    let v = json!({"attrs": {"kind": kind, "op": "set_var_order", "class": "deadlock"},
+                        "case": {"kind": kind, "case": lab, "schedule_prefix": pfx, "choices": sched::choices(tr)},
+                        "msg": format!("{kind} concurrent set_var_order ({lab}): deadlock: {d}"), "group": 0, "shard": format!("{kind}:sched4"), "property": "C08", "tier": "quick"});
+                    println!("V {v}");
+                });
+                crate::dd::force_concurrent_reorder(false);
+                ctx.count("evaluations", 1);
+                ctx.count("executions", 1);
+                ctx.count("transitions", exec.trace.len() as u64);
+                if sched::preemptions(&exec.trace) > 0 {
+                    ctx.count("nontrivial", 1);
+                }
+                let mut errs: Vec<(String, String)> = exec.panics.iter().map(|p| ("panic".to_string(), p.clone())).collect();
+                if exec.overrun {
+                    errs.push(("replay_divergence".into(), "the schedule prefix could not be replayed".into()));
+                }
+                let got = current_order::<K>(&mref);
+                if errs.is_empty() {
+                    if !satisfies(&got, &req) {
+                        errs.push(("request_not_established".into(), format!("resulting order {} violates the request", model::order_str(&got))));
+                    }
+                    let live: Vec<&K::F> = fns.iter().collect();
+                    errs.extend(check_state::<K>(&mref, &live, &tabs, n, true));
+                    drop(live);
+                    drop(fns);
+                    let left = mref.with_manager_shared(|m| {
+                        m.gc();
+                        m.num_inner_nodes()
+                    });
+                    let init = if K::NAME == "zbdd" { n as usize } else { 0 };
+                    if left != init {
+                        errs.push(("leak_after_reorder".into(), format!("{left} inner nodes remain after dropping all handles and gc (initial: {init})")));
+                    }
+                }
+                ctx.distinct(crate::proto::fx(&[got.iter().fold(0u64, |a, &x| a * 8 + x as u64), exec.trace.len() as u64]));
+                for (class, msg) in errs {
+                    ctx.viol(
+                        attrs(&[("kind", K::NAME), ("op", "set_var_order"), ("class", &class), ("variant", "concurrent_scheduled")]),
+                        json!({"kind": K::NAME, "case": label, "choices": sched::choices(&exec.trace),
+                               "legend": "choices[i] = index into the enabled list at scheduling point i (0 = keep running / lowest id)"}),
+                        &format!("{} concurrent set_var_order ({label}) under schedule {:?}: {msg}", K::NAME, sched::choices(&exec.trace)),
+                    );
+                }
+                exec.trace
+            });
+            let mut ctx = ctx_cell.borrow_mut();
+            ctx.outcome(&format!("schedules:{}:{label}={count},max_points={maxp}{}", K::NAME, if capped { ",CAPPED" } else { "" }));
+            if capped {
+                println!("M schedule cap of {cap} reached for {} {label}", K::NAME);
+            }
+            ctx.sample(|| json!({"kind": K::NAME, "case": label, "preemption_bound": bound, "schedules": count, "max_scheduling_points": maxp}));
         });
     }
 }
